@@ -39,6 +39,13 @@
 //     v[…].  Any other use of v than passing it on (call argument, return value) or comparing
 //     it makes genc41 fail.
 //
+//   - stdin_copy : stdin_copy_shape — the shape of readSeekerFromStdin around
+//     `n, copyErr := io.Copy(f, os.Stdin)` (exactly one such statement must exist):
+//     sc_err_check_directly_after: the next statement of the same block is an `if`;
+//     sc_err_check_independent_of_n: its condition is exactly `copyErr != nil` (the byte count
+//     does not occur in it and it is not nested in a test of n);  sc_err_returns: its body ends
+//     in `return nil, <non-nil>`;  sc_empty_check: a later `if n == 0 { … return nil, <non-nil> }`.
+//
 // Every "-" literal must occur as an operand of ==/!=, as an argument of slices.Contains,
 // as an argument of streamInOutForOperation, or as the right-hand side of an assignment;
 // log.SetCLILogger must only be called with nil; anything else makes genc41 FAIL (exit 1),
@@ -893,6 +900,89 @@ func rangeCountsByValue(r *ast.RangeStmt) string {
 	return counter
 }
 
+// ---- shape of readSeekerFromStdin
+
+type stdinShape struct {
+	DirectlyAfter, IndependentOfN, ErrReturns, EmptyCheck bool
+}
+
+func mentions(n ast.Node, name string) bool {
+	found := false
+	ast.Inspect(n, func(m ast.Node) bool {
+		if id, ok := m.(*ast.Ident); ok && id.Name == name {
+			found = true
+		}
+		return true
+	})
+	return found
+}
+
+func returnsNilErr(body *ast.BlockStmt) bool {
+	if len(body.List) == 0 {
+		return false
+	}
+	r, ok := body.List[len(body.List)-1].(*ast.ReturnStmt)
+	return ok && len(r.Results) == 2 && isNil(r.Results[0]) && !isNil(r.Results[1])
+}
+
+func analyseStdinCopy(fns map[string]*fn) stdinShape {
+	f := fns["readSeekerFromStdin"]
+	var sh stdinShape
+	count := 0
+	ast.Inspect(f.decl, func(n ast.Node) bool {
+		bl, ok := n.(*ast.BlockStmt)
+		if !ok {
+			return true
+		}
+		for i, st := range bl.List {
+			as, ok := st.(*ast.AssignStmt)
+			if !ok || len(as.Rhs) != 1 || len(as.Lhs) != 2 {
+				continue
+			}
+			c, ok := as.Rhs[0].(*ast.CallExpr)
+			if !ok || !isSel(c.Fun, "io", "Copy") || len(c.Args) != 2 || !isSel(c.Args[1], "os", "Stdin") {
+				continue
+			}
+			count++
+			nID, ok1 := as.Lhs[0].(*ast.Ident)
+			eID, ok2 := as.Lhs[1].(*ast.Ident)
+			if !ok1 || !ok2 || nID.Name == "_" || eID.Name == "_" {
+				die("%s: io.Copy(f, os.Stdin) results not bound to two named variables", pos(as))
+			}
+			if bl != f.decl.Body {
+				die("%s: io.Copy(f, os.Stdin) not at the top level of readSeekerFromStdin", pos(as))
+			}
+			if i+1 < len(bl.List) {
+				if is, ok := bl.List[i+1].(*ast.IfStmt); ok {
+					sh.DirectlyAfter = true
+					if be, ok := is.Cond.(*ast.BinaryExpr); ok && be.Op == token.NEQ && isNil(be.Y) {
+						if id, ok := be.X.(*ast.Ident); ok && id.Name == eID.Name && is.Init == nil && !mentions(is.Cond, nID.Name) {
+							sh.IndependentOfN = true
+							sh.ErrReturns = returnsNilErr(is.Body)
+						}
+					}
+				}
+			}
+			for _, later := range bl.List[i+1:] {
+				if is, ok := later.(*ast.IfStmt); ok {
+					if be, ok := is.Cond.(*ast.BinaryExpr); ok && be.Op == token.EQL {
+						if id, ok := be.X.(*ast.Ident); ok && id.Name == nID.Name {
+							if lit, ok := be.Y.(*ast.BasicLit); ok && lit.Value == "0" && returnsNilErr(is.Body) {
+								sh.EmptyCheck = true
+							}
+						}
+					}
+				}
+			}
+		}
+		return true
+	})
+	if count != 1 {
+		die("readSeekerFromStdin: expected exactly one `n, err := io.Copy(f, os.Stdin)`, found %d", count)
+	}
+	return sh
+}
+
 func b(v bool) string {
 	if v {
 		return "true"
@@ -964,7 +1054,11 @@ func main() {
 		}
 		fmt.Fprintf(&sb, "  mkSel %q %s %s %s %s %s%s\n", r.Name, b(r.Ranges), b(r.CountsByValue), b(r.SingleGuard), b(r.UsesLen), b(r.UsesIndex), sep)
 	}
-	sb.WriteString("].\n")
+	sb.WriteString("].\n\n")
+	sh := analyseStdinCopy(fns)
+	sb.WriteString("Record stdin_copy_shape := mkStdinCopy { sc_err_check_directly_after : bool;\n")
+	sb.WriteString("  sc_err_check_independent_of_n : bool; sc_err_returns : bool; sc_empty_check : bool }.\n\n")
+	fmt.Fprintf(&sb, "Definition stdin_copy : stdin_copy_shape := mkStdinCopy %s %s %s %s.\n", b(sh.DirectlyAfter), b(sh.IndependentOfN), b(sh.ErrReturns), b(sh.EmptyCheck))
 	if err := os.MkdirAll(filepath.Dir(*out), 0o755); err != nil {
 		die("%v", err)
 	}
